@@ -24,15 +24,15 @@ const (
 	Compiler = rr.Compiler
 )
 
-func Gosched()                { sim.SyncPoint('y', 0) }
-func NumCPU() int             { return sim.NumCPU() }
-func GOMAXPROCS(n int) int    { return sim.NumCPU() }
-func NumGoroutine() int       { return sim.NumTasks() }
-func GC()                     { sim.GCClear() }
-func KeepAlive(x any)         { rr.KeepAlive(x) }
-func Version() string         { return rr.Version() }
+func Gosched()                                                     { sim.SyncPoint('y', 0) }
+func NumCPU() int                                                  { return sim.NumCPU() }
+func GOMAXPROCS(n int) int                                         { return sim.NumCPU() }
+func NumGoroutine() int                                            { return sim.NumTasks() }
+func GC()                                                          { sim.GCClear() }
+func KeepAlive(x any)                                              { rr.KeepAlive(x) }
+func Version() string                                              { return rr.Version() }
 func Caller(skip int) (pc uintptr, file string, line int, ok bool) { return rr.Caller(skip + 1) }
-func Callers(skip int, pc []uintptr) int                          { return rr.Callers(skip+1, pc) }
+func Callers(skip int, pc []uintptr) int                           { return rr.Callers(skip+1, pc) }
 func CallersFrames(callers []uintptr) *Frames                      { return rr.CallersFrames(callers) }
 func FuncForPC(pc uintptr) *Func                                   { return rr.FuncForPC(pc) }
 func Stack(buf []byte, all bool) int                               { return rr.Stack(buf, false) }
